@@ -299,3 +299,28 @@ fn c06_literal_keys_near_recognised_hashes_are_reported() {
     }
     run_cases("c06_near_hashes", cases);
 }
+
+/// slots whose type is a PACKED encoding (two fields read out of them by mask), at every kind of literal key, alone and
+/// sharing their type with a second slot through a whole-word copy (`sstore(k1, sload(k2))`): each key has its own entries,
+/// at exactly that 256-bit index, and no entry names any other index
+#[test]
+fn c06_packed_slots_at_every_key_and_in_shared_sets_are_reported() {
+    let mut cases = vec![];
+    let keys = literal_keys(0);
+    for (i, &k2) in keys.iter().enumerate() {
+        let k1 = keys[(i + 5) % keys.len()];
+        if k1 == k2 { continue; }
+        // a = sload(k2) & 0xff ; b = (sload(k2) >> 8) & 0xffff ; both dropped into memory
+        let fields = |c: &mut Vec<u8>, k: U256| {
+            c.extend([0x60, 0xff]); p32(c, k); c.extend([0x54, 0x16, 0x60, 0x00, 0x52]);
+            c.extend([0x61, 0xff, 0xff]); p32(c, k); c.extend([0x54, 0x60, 0x08, 0x1c, 0x16, 0x60, 0x20, 0x52]);
+        };
+        let mut c = vec![]; fields(&mut c, k2); c.push(0x00);
+        cases.push(Case { ob: "slots.packed_slot", what: format!("two fields read out of slot {k2:#x}"), code: c, must: vec![k2] });
+        let mut c = vec![]; fields(&mut c, k2); p32(&mut c, k2); c.push(0x54); p32(&mut c, k1); c.extend([0x55, 0x00]);
+        cases.push(Case { ob: "slots.packed_slot", what: format!("two fields read out of slot {k2:#x}; sstore({k1:#x}, sload({k2:#x}))"), code: c, must: vec![k1, k2] });
+        let mut c = vec![]; p32(&mut c, k2); c.push(0x54); p32(&mut c, k1); c.push(0x55); fields(&mut c, k1); fields(&mut c, k2); c.push(0x00);
+        cases.push(Case { ob: "slots.packed_slot", what: format!("sstore({k1:#x}, sload({k2:#x})); two fields read out of each"), code: c, must: vec![k1, k2] });
+    }
+    run_cases("c06_packed_slots", cases);
+}
